@@ -71,7 +71,7 @@ func registerExtras(p *Program) {
 	}
 	I[verifPkg+".Witness"] = func(ex *Exec, fr *frame, fn *ssa.Function, a []Value) Value {
 		label := constStr(a[1], "Witness label")
-		r, m := ex.S.CheckSat([]*Term{tstr(a[0])}, ex.Inputs)
+		r, m := ex.Check([]*Term{tstr(a[0])}, ex.Inputs)
 		if r == Sat {
 			ex.Reached["witness:"+label]++
 			model := map[string]string{}
